@@ -8,6 +8,7 @@ accepting executions (checked with E1), and (3) re-running the same check on the
 program no longer yields a violation of the same kind at the same place.  Anything else -
 including a different defect on the same program - stays a VIOLATION.
 """
+import contextlib
 import re
 from typing import Any, Callable, Dict, List, Optional, Tuple
 
@@ -82,7 +83,12 @@ def by_repair(
     worker: Callable[[Any, Any], None],
     get_src: Callable[[Any], str],
     with_src: Callable[[Any, str], Any],
+    patches: Tuple[str, ...] = (),
 ) -> Callable[[Dict[str, Any], Dict[str, Any]], bool]:
+    """`patches`: names of in-process repairs of OTHER recorded defects.  A program can hit two
+    recorded defects at once (e.g. a final bz and an OnCompletion test); then the source repair
+    alone leaves the violation in place.  It is attributed iff it disappears once the source
+    repair and those patches are active together - a third defect still persists and is reported."""
     from mc.runner import Result  # pylint: disable=import-outside-toplevel
 
     cache: Dict[Tuple[str, str], bool] = {}
@@ -109,7 +115,15 @@ def by_repair(
             if same_behaviour(src, fixed):
                 res = Result()
                 worker(with_src(item, fixed), res)
-                rerun_cache[rkey] = None if res.errors else [(x["kind"], place_of(x)) for x in res.violations]
+                left0 = None if res.errors else [(x["kind"], place_of(x)) for x in res.violations]
+                if left0 and patches:
+                    with contextlib.ExitStack() as stack:
+                        for name in patches:
+                            stack.enter_context(PATCHES[name]())
+                        res = Result()
+                        worker(with_src(item, fixed), res)
+                    left0 = None if res.errors else [(x["kind"], place_of(x)) for x in res.violations]
+                rerun_cache[rkey] = left0
             else:
                 rerun_cache[rkey] = None
         left = rerun_cache[rkey]
